@@ -48,6 +48,13 @@ def gen_case(rng, ltype, sharp=True):
         data["ddt_weights"] = np.array([rng.choice([rng.uniform(0.05, 3.0), rng.uniform(0.5, 1.5), 1.0]) for _ in range(ns)])
         if rng.random() < 0.3:
             data["ddt_weights"] = data["ddt_weights"] * rng.choice([1e-3, 40.0])
+    if sharp and "kin_scaling_param_list" in cfg and rng.random() < 0.35:
+        # the tangential-to-radial parameterisation: the hyper-parameter is sigma_t/sigma_r, the lens-level anisotropy
+        # parameter handed to the interpolation is 1 - (sigma_t/sigma_r)^2 — also at zero scatter
+        cfg["anisotropy_distribution"] = "GAUSSIAN_TAN_RAD"
+        cfg["anisotropy_model"] = "const"
+        h["kwargs_kin"]["a_ani"] = rng.uniform(0.52, 0.69)      # both a and 1 - a^2 inside the grid [0.5, 4]
+        h["kwargs_kin"]["a_ani_sigma"] = 0.0
     cfg["num_distribution_draws"] = rng.choice([2, 3, 5]) if sharp else 4000
     if ltype in lc.KIN_TYPES:
         data["sigma_sys_error_include"] = rng.random() < 0.5
@@ -169,6 +176,15 @@ def oracle(case, out, lens, cosmo):
             kn = KinLikelihood(cfg["z_lens"], cfg["z_source"], d["sigma_v_measurement"], d["j_model"], d["error_cov_measurement"],
                                d["error_cov_j_sqrt"], normalized=True, sigma_sys_error_include=d.get("sigma_sys_error_include", False))
             ks = np.array(out["draws"][0][2]) if out["draws"] else None
+            if "kin_scaling_param_list" in cfg and ks is not None and "a_ani" in h["kwargs_kin"]:
+                # the anisotropy the report is built on is the declared one: the lens-level parameter of the declared
+                # parameterisation at zero scatter, interpolated on the lens' own grid
+                a = h["kwargs_kin"]["a_ani"]
+                a_eff = 1 - a ** 2 if cfg.get("anisotropy_distribution") == "GAUSSIAN_TAN_RAD" else a
+                ks_exp = np.atleast_1d(np.array(lens.kin_scaling({"a_ani": a_eff}), dtype=float))
+                if ks.shape != ks_exp.shape or not np.allclose(ks, ks_exp, rtol=1e-12, atol=0):
+                    fails.append("the reported prediction is built on the kinematic scaling %r; the declared anisotropy (%s, a_ani = %r -> "
+                                 "lens-level parameter %r) gives %r" % (ks.tolist(), cfg.get("anisotropy_distribution"), a, a_eff, ks_exp.tolist()))
             sv = h["kwargs_kin"].get("sigma_v_sys_error")
             want = float(np.squeeze(kn.log_likelihood(ddt0 * lam * (1 - kap), dd0 * (1 + gam) / 2, kin_scaling=ks, sigma_v_sys_error=sv)))
             got = mvn_logpdf(m, p, np.asarray(cm) + np.asarray(cp))
